@@ -10,6 +10,7 @@ import Driver.C10
 import Driver.C11
 import Driver.C13
 import Driver.Sched
+import Driver.C19
 import Driver.Pool
 import Driver.C18
 /-!
@@ -50,6 +51,9 @@ def dispatch (line : String) : String :=
     | "mime" => C11.mimeOp args
     | "dkim" => C13.dkimOp args
     | "sched" => Sched.schedOp args
+    | "np" => C19.npOp "opt" args
+    | "npdbg" => C19.npOp "unopt" args
+    | "scale" => C19.scaleOp args
     | "dkimbody" => C13.dkimbodyOp args
     | "dkimhdrs" => C13.dkimhdrsOp args
     | "mbox" => C17.mboxOp args
